@@ -46,8 +46,8 @@ static void emit_mat(rng_t *r, sbuf_t *o, int reg, int m, int n, const char *for
   }
   unsigned long long sd = (unsigned long long)(rng_u64(r) >> 1);
   if (g_winprob && (int)rng_below(r, 16) < g_winprob) { /* same value, but living in a window: odd word offsets give 8-mod-16 aligned rows */
-    int r0s[] = { 0, 1, 3, 0 }, c0s[] = { 1, 1, 0, 2, 3 }, ers[] = { 0, 2, 0 }, ecs[] = { 0, 5, 64, 70, 0 };
-    sb_printf(o, "wmat %d %d %d %s %ld %llu %d %d %d %d\n", reg, m, n, g, p, sd, r0s[rng_below(r, 4)], c0s[rng_below(r, 5)], ers[rng_below(r, 3)], ecs[rng_below(r, 5)]);
+    int r0s[] = { 0, 1, 3, 0 }, c0s[] = { 1, 1, 0, 2, 3, 1 }, ers[] = { 0, 2, 0 }, ecs[] = { 0, 5, 64, 70, 0 }; /* word offsets: odd in 4 of 6 (rows 8-mod-16 aligned) */
+    sb_printf(o, "wmat %d %d %d %s %ld %llu %d %d %d %d\n", reg, m, n, g, p, sd, r0s[rng_below(r, 4)], c0s[rng_below(r, 6)], ers[rng_below(r, 3)], ecs[rng_below(r, 5)]);
     return;
   }
   sb_printf(o, "mat %d %d %d %s %ld %llu\n", reg, m, n, g, p, sd);
@@ -142,7 +142,8 @@ static int gen_case_inner(rng_t *r, const char *op, const genopt_t *g, sbuf_t *o
     int m = gen_dim(r, D), n = gen_dim(r, D);
     if (IS("ech_naive") && m > 500) m = 1 + m % 500;
     int hybrid = 0;
-    if ((IS("ech_pluq") || IS("ech")) && g_deep && rng_chance(r, 1, 2)) { n = 513 + (int)rng_below(r, 200); m = 8192 / ((n + 63) / 64) + 1 + (int)rng_below(r, 100); }
+    int deep_lz = 0;
+    if ((IS("ech_pluq") || IS("ech")) && g_deep && rng_chance(r, 1, 2)) { n = 577 + (int)rng_below(r, 64); m = 8192 / ((n + 63) / 64) + 1 + (int)rng_below(r, 100); deep_lz = rng_chance(r, 1, 2); }
     if (IS("ech") && D >= 200 && rng_chance(r, 1, 2)) { /* density-switching hybrid: first pivot beyond column 256, remaining block denser than the switching threshold (0.15), whole matrix sparser */
       hybrid = 1;
       m = 40 + (int)rng_below(r, 260); n = 640 + (int)rng_below(r, 400);
@@ -154,6 +155,8 @@ static int gen_case_inner(rng_t *r, const char *op, const genopt_t *g, sbuf_t *o
       int lead = minlead + (int)rng_below(r, (uint64_t)(maxlead - minlead));
       sb_printf(o, "mat %d %d %d leadz %d %llu\n", rb, m, n, lead * 1000 + dens, (unsigned long long)(rng_u64(r) >> 1));
     } else
+    if (deep_lz) sb_printf(o, "mat %d %d %d leadz %d %llu\n", rb, m, n, (1 + (int)rng_below(r, (uint64_t)(n / 2))) * 1000 + 128, (unsigned long long)(rng_u64(r) >> 1));
+    else
     if (!IS("ech_naive") && D >= 200 && rng_chance(r, 1, 4)) wide_ple_shape(r, o, rb, &m, &n);
     else emit_mat(r, o, rb, m, n, rng_chance(r, 1, 2) ? "rank" : NULL, 1 + (long)rng_below(r, (uint64_t)(m < n ? m : n)));
     if (IS("ech_m4ri")) sb_printf(o, "op %s %d %d %d\n", op, rb, (int)rng_below(r, 2), (int)rng_below(r, 9));
@@ -164,10 +167,14 @@ static int gen_case_inner(rng_t *r, const char *op, const genopt_t *g, sbuf_t *o
   if (IS("ple") || IS("pluq") || IS("ple_naive") || IS("pluq_naive") || IS("ple_russian") || IS("pluq_russian")) {
     int m = gen_dim(r, D), n = gen_dim(r, D);
     if ((IS("ple_naive") || IS("pluq_naive")) && m > 400) m = 1 + m % 400;
-    if (!IS("ple_naive") && !IS("pluq_naive") && g_deep && rng_chance(r, 2, 3)) { /* more than L3/8 = 8192 words: the recursive _mzd_ple/_mzd_pluq with its column splits, A10/A11 updates and compression of L */
+    if (!IS("ple_naive") && !IS("pluq_naive") && g_deep && rng_chance(r, 4, 5)) { /* more than L3/8 = 8192 words: the recursive _mzd_ple/_mzd_pluq with its column splits, A10/A11 updates and compression of L */
       n = 513 + (int)rng_below(r, 260);
+      int lz = rng_chance(r, 3, 5);
+      if (lz || rng_chance(r, 1, 2)) n = rng_chance(r, 1, 2) ? 577 + (int)rng_below(r, 64) : 705 + (int)rng_below(r, 64); /* an even number of words per row: no stride padding behind the last row */
       m = 8192 / ((n + 63) / 64) + 1 + (int)rng_below(r, 200);
-      emit_mat(r, o, rb, m, n, rng_chance(r, 1, 2) ? "rank" : NULL, 1 + (long)rng_below(r, (uint64_t)(m < n ? m : n)));
+      if (lz) /* some leading zero columns and full rank behind them: the left half of a column split has a rank that is no multiple of 64, the right half is full, rows are left over */
+        sb_printf(o, "mat %d %d %d leadz %d %llu\n", rb, m, n, (1 + (int)rng_below(r, (uint64_t)(n / 2))) * 1000 + 128, (unsigned long long)(rng_u64(r) >> 1));
+      else emit_mat(r, o, rb, m, n, rng_chance(r, 1, 2) ? "rank" : NULL, 1 + (long)rng_below(r, (uint64_t)(m < n ? m : n)));
     } else
     if (!IS("ple_naive") && !IS("pluq_naive") && D >= 200 && rng_chance(r, 1, 3)) wide_ple_shape(r, o, rb, &m, &n);
     else emit_mat(r, o, rb, m, n, rng_chance(r, 1, 2) ? "rank" : NULL, 1 + (long)rng_below(r, (uint64_t)(m < n ? m : n)));
